@@ -436,3 +436,6 @@ def run(ctx):
     # R4: what a relation literal means when it is FALSE (shared with C10.R2): the negation table of propagate(lit)
     from .C10 import r2 as negation_table
     negation_table(ctx, fs, rid='C12.R4')
+    # a relation literal that is left open is decided later by the propagation of the difference-logic theory: what it then means rests on the structural
+    # clauses of C10 (sibling agreement of the two theories, explanation walks, the literal being explained), evaluated here under their own rule ids
+    ctx.include('C10')
